@@ -7,6 +7,7 @@ import (
 	"encoding/binary"
 	"encoding/hex"
 	"fmt"
+	"os"
 	"sort"
 	"strconv"
 	"strings"
@@ -30,6 +31,7 @@ type R struct {
 	names map[string]string // bech32 -> symbolic
 	addrs map[string]sdk.AccAddress
 	key   storetypes.StoreKey
+	g     *hx.Rng // per-history generator stream (see ResetLine)
 }
 
 func New(env *hx.Env) *R {
@@ -317,7 +319,13 @@ func (r *R) genParams(g *hx.Rng) string {
 	return strings.Join(as, ",")
 }
 
-func (r *R) ResetLine(g *hx.Rng) string {
+// ResetLine starts a history.  hx seeds history i with seed+i, and the splitmix streams of
+// adjacent seeds are shifts of one another; the history's own stream is therefore re-seeded from a
+// SHA-256 of the first draw so that histories are independent (still a function of the seed only).
+func (r *R) ResetLine(g0 *hx.Rng) string {
+	d := sha256.Sum256([]byte(fmt.Sprintf("verif-htlc-history-%d", g0.U64())))
+	r.g = hx.NewRng(binary.BigEndian.Uint64(d[:8]))
+	g := r.g
 	var bs []string
 	for i := 0; i < 4; i++ {
 		for _, d := range plainDenoms {
@@ -383,6 +391,20 @@ func secretFor(h htlctypes.HTLC) int {
 	return -1
 }
 
+// clampMostly brings an amount into [lo,hi] nine times out of ten (the rest probes the bounds).
+func clampMostly(g *hx.Rng, v, lo, hi int64) int64 {
+	if g.Chance(1, 10) {
+		return v
+	}
+	if v > hi {
+		v = hi
+	}
+	if v < lo {
+		v = lo
+	}
+	return v
+}
+
 func around(g *hx.Rng, v int64) int64 {
 	x := v + g.Range(-1, 1)
 	if x < 0 {
@@ -392,6 +414,9 @@ func around(g *hx.Rng, v int64) int64 {
 }
 
 func (r *R) Gen(ctx sdk.Context, g *hx.Rng) string {
+	if r.g != nil {
+		g = r.g
+	}
 	k := r.env.HTLC
 	all := r.htlcs(ctx)
 	var open []htlctypes.HTLC
@@ -406,9 +431,20 @@ func (r *R) Gen(ctx sdk.Context, g *hx.Rng) string {
 	acc := func() string { return hx.AccName(g.Intn(nAcc)) }
 	user := func() string { return hx.AccName(g.Intn(4)) }
 	timeLock := func(lo, hi int64) int64 {
-		switch g.Pick(10, 3, 2, 1, 1) {
+		// pile contracts onto an expiry bucket that already exists
+		if len(open) > 0 && g.Chance(1, 3) {
+			tl := int64(open[g.Intn(len(open))].ExpirationHeight) - height
+			if tl >= lo && tl <= hi {
+				return tl
+			}
+		}
+		switch g.Pick(40, 3, 2, 1, 1) {
 		case 0:
-			return g.Range(lo, lo+8)
+			top := lo + 8
+			if top > hi {
+				top = hi
+			}
+			return g.Range(lo, top)
 		case 1:
 			return hi
 		case 2:
@@ -420,7 +456,7 @@ func (r *R) Gen(ctx sdk.Context, g *hx.Rng) string {
 		}
 	}
 	tsNear := func() int64 {
-		switch g.Pick(8, 1, 1, 1, 1, 1) {
+		switch g.Pick(30, 1, 1, 1, 1, 1) {
 		case 0:
 			return now + g.Range(-800, 1700)
 		case 1:
@@ -445,6 +481,23 @@ func (r *R) Gen(ctx sdk.Context, g *hx.Rng) string {
 	if len(assets) == 0 && (kind == 1 || kind == 2) {
 		kind = 0
 	}
+	if len(open) == 0 && kind == 3 && g.Chance(3, 4) {
+		kind = g.Pick(2, 1, 1)
+		if len(assets) == 0 {
+			kind = 0
+		}
+	}
+	if kind == 2 { // an outgoing transfer needs available current supply: build it up first
+		any := false
+		for _, a := range assets {
+			if sup, ok := k.GetAssetSupply(ctx, a.Denom); ok && sup.CurrentSupply.Amount.GT(sup.OutgoingSupply.Amount) {
+				any = true
+			}
+		}
+		if !any && g.Chance(4, 5) {
+			kind = 1
+		}
+	}
 	switch kind {
 	case 0: // plain contract
 		if len(all) > 0 && g.Chance(1, 12) { // duplicate id
@@ -468,7 +521,7 @@ func (r *R) Gen(ctx sdk.Context, g *hx.Rng) string {
 		var cs []string
 		pick := func(d string, bal sdkmath.Int) {
 			var amt sdkmath.Int
-			switch g.Pick(6, 3, 2, 2, 1) {
+			switch g.Pick(8, 3, 2, 2, 1) {
 			case 0:
 				if bal.IsPositive() && bal.IsInt64() {
 					amt = sdkmath.NewInt(g.Range(1, bal.Int64()))
@@ -487,7 +540,7 @@ func (r *R) Gen(ctx sdk.Context, g *hx.Rng) string {
 			default:
 				amt = sdkmath.ZeroInt()
 			}
-			if g.Chance(4, 5) && amt.IsZero() {
+			if g.Chance(9, 10) && amt.IsZero() {
 				amt = sdkmath.OneInt()
 			}
 			cs = append(cs, d+"*"+amt.String())
@@ -567,9 +620,7 @@ func (r *R) Gen(ctx sdk.Context, g *hx.Rng) string {
 		default:
 			amt = around(g, a.MaxSwapAmount.Int64())
 		}
-		if amt <= 0 && g.Chance(4, 5) {
-			amt = 1
-		}
+		amt = clampMostly(g, amt, a.MinSwapAmount.Int64(), a.MaxSwapAmount.Int64())
 		d := a.Denom
 		if g.Chance(1, 30) {
 			d = "stake"
@@ -578,6 +629,12 @@ func (r *R) Gen(ctx sdk.Context, g *hx.Rng) string {
 		return create(sender, to, fmt.Sprintf("%s*%d", d, amt), lockOf(g.Intn(nSecrets), ts), ts, timeLock(50, 34560), true)
 	case 2: // outgoing cross-chain transfer (user -> deputy)
 		a := assets[g.Intn(len(assets))]
+		for i := 0; i < 3; i++ { // prefer an asset with available supply
+			if sup, ok := k.GetAssetSupply(ctx, a.Denom); ok && sup.CurrentSupply.Amount.GT(sup.OutgoingSupply.Amount) {
+				break
+			}
+			a = assets[g.Intn(len(assets))]
+		}
 		sender := user()
 		// prefer a holder of the asset
 		for i := 0; i < 4; i++ {
@@ -609,9 +666,7 @@ func (r *R) Gen(ctx sdk.Context, g *hx.Rng) string {
 		default:
 			amt = around(g, a.MaxSwapAmount.Int64())
 		}
-		if amt <= 0 && g.Chance(4, 5) {
-			amt = 1
-		}
+		amt = clampMostly(g, amt, a.MinSwapAmount.Int64()+a.FixedFee.Int64(), a.MaxSwapAmount.Int64())
 		ts := tsNear()
 		return create(sender, to, fmt.Sprintf("%s*%d", a.Denom, amt), lockOf(g.Intn(nSecrets), ts), ts,
 			timeLock(int64(a.MinBlockLock), int64(a.MaxBlockLock)), true)
@@ -670,6 +725,9 @@ func (r *R) Gen(ctx sdk.Context, g *hx.Rng) string {
 		if n < 0 {
 			n = 0
 		}
+		if n > 2000 && !g.Chance(1, 4) {
+			return "htlc begin_block " + hx.KV("h", height+1, "t", ctx.BlockTime().UnixNano()+2000000000)
+		}
 		dt := int64(1000000000)
 		if n > 1000 {
 			dt = 10000000 // keep HTLT timestamps of later creations in range
@@ -719,6 +777,9 @@ func (r *R) Gen(ctx sdk.Context, g *hx.Rng) string {
 		n := int64(h.ExpirationHeight) - height - g.Range(0, 1)
 		if n < 0 {
 			n = 0
+		}
+		if n > 2000 && !g.Chance(1, 4) {
+			n = g.Range(1, 3)
 		}
 		dt := int64(1000000000)
 		if n > 1000 {
@@ -774,5 +835,8 @@ func (r *R) Exec(ctx sdk.Context, line string) (sdk.Context, string) {
 		hx.Fail("unknown op %q", line)
 	}
 	out := r.env.Deliver(ctx, msg)
+	if os.Getenv("HTLC_DEBUG") != "" {
+		fmt.Fprintf(os.Stderr, "%s %s %s\n", f[1], out.Class, out.Err)
+	}
 	return ctx, out.Class + " " + r.state(ctx)
 }
